@@ -52,6 +52,10 @@ fn moving_job(op: Op1, form: Form, len: usize, devs: u32) -> Job {
     let mut src_done = false;
     let mut seq = 0i64;
     let mut reordered = false;
+    // did the executor ever run a ready task other than the first one? Only then
+    // can independent one-shot tasks have overtaken each other (the known
+    // finding); a late executor alone keeps the FIFO order of the tasks
+    let mut ran_out_of_order = false;
     let fail = |obs: &mut Obs, clause: &str, hist: &Vec<String>, msg: String| {
       obs.fail(
         format!("c07:{clause}:{opname}:{}", form_name(form)),
@@ -77,6 +81,9 @@ fn moving_job(op: Op1, form: Form, len: usize, devs: u32) -> Job {
         Act::Run(k) => {
           ch.label(|| format!("run({k})"));
           hist.push(format!("run({k})"));
+          if k > 0 {
+            ran_out_of_order = true;
+          }
           r.world.run_ready(k);
         }
         Act::Advance(n) => {
@@ -141,7 +148,7 @@ fn moving_job(op: Op1, form: Form, len: usize, devs: u32) -> Job {
         exp.starts_with(&got)
       };
       if !ordered_ok {
-        if fifo {
+        if fifo || !ran_out_of_order {
           fail(obs, "order", &hist, format!("source [{}] delivered [{}]", fmt_notes(&exp), fmt_notes(&got)));
           break;
         } else if !reordered {
@@ -166,7 +173,7 @@ fn moving_job(op: Op1, form: Form, len: usize, devs: u32) -> Job {
         sorted_ok = is_multiset_sub(&exp, &got);
       }
       if !complete && !overtaken && !sorted_ok {
-        let clause = if ch.deviations() == 0 { "lost" } else { "any-order-lost" };
+        let clause = if !ran_out_of_order { "lost" } else { "any-order-lost" };
         fail(obs, clause, &hist, format!("everything ran out; source [{}] delivered [{}]", fmt_notes(&exp), fmt_notes(&got)));
       }
     }
@@ -306,6 +313,7 @@ pub fn plan(tier: Tier) -> Plan {
   let mut jobs = vec![];
   let moving = vec![
     Op1::ObserveOn,
+    Op1::Delay(0),
     Op1::Delay(1),
     Op1::Delay(2),
     Op1::DelayAt(-2),
